@@ -254,7 +254,7 @@ def coinbase_tx(
     """
     blocks_per_halving = 210000 if not regtest else 150
 
-    if block_height:
+    if block_height is not None:
         max_reward = int(50e8)
         halvings = block_height // blocks_per_halving
         if halvings:
